@@ -349,9 +349,15 @@ func procScript(rng *plan.Rand, news int) []plan.DevStep {
 		case x < 17:
 			s = append(s, plan.DevStep{})
 		case x < 19:
-			s = append(s, plan.DevStep{E: []string{"eof", "ueof", "err", "weof", "closed"}[rng.Intn(5)]})
+			if rng.Intn(3) == 0 { // a burst of transient failures, as a device under load gives them
+				for b := 0; b < rng.Range(2, 5); b++ {
+					s = append(s, plan.DevStep{E: []string{"temp", "eagain", "eintr"}[rng.Intn(3)]})
+				}
+			} else {
+				s = append(s, plan.DevStep{E: []string{"eof", "ueof", "err", "weof", "closed", "temp", "eagain", "eintr"}[rng.Intn(8)]})
+			}
 		default:
-			s = append(s, plan.DevStep{D: rng.Range(1, 15), E: []string{"eof", "err"}[rng.Intn(2)]})
+			s = append(s, plan.DevStep{D: rng.Range(1, 15), E: []string{"eof", "err", "temp", "eagain"}[rng.Intn(4)]})
 		}
 	}
 	return s
